@@ -23,40 +23,67 @@ ASSUMPTIONS = ["a process abort (assertion in warp/native/array.h) or an unexpec
 VERIF = os.path.abspath(os.path.join(os.path.dirname(__file__), "..", ".."))
 
 
+def _call_site(stderr):
+  """innermost mujoco_warp frame of the faulthandler traceback (most recent call first), e.g. 'island.tree_edges'"""
+  import re
+  for mo in re.finditer(r'File ".*?/mujoco_warp/_src/(\w+)\.py", line \d+ in (\w+)', stderr or ""):
+    if mo.group(1) != "warp_util":
+      return f"{mo.group(1)}.{mo.group(2)}"
+  return None
+
+
 def _run(ctx, ncases):
   acc = Acc()
   seed = ctx.seed * 1000 + 17
-  p = subprocess.run([sys.executable, os.path.join(VERIF, "harness", "props", "c17_worker.py"), str(seed), str(ncases)], capture_output=True, text=True, timeout=3000)
-  last = None
-  for line in p.stdout.split("\n"):
-    line = line.strip()
-    if not line.startswith("{"):
-      continue
-    try:
-      ev = json.loads(line)
-    except Exception:
-      continue
-    if "begin" in ev:
-      last = ev["begin"]
-    elif "end" in ev:
-      acc.evals += 1
-      st = ev["status"]
-      acc.hit(st.split(":")[0])
-      if ev["end"] == "invalid":
-        if st != "rejected":
-          acc.find(f"invalid configuration {ev['kw']} was not rejected ({st})", "io.make_data", "invalid-accepted", kw=ev["kw"])
-      else:
-        acc.distinct.add(ev["end"])
-        if st.startswith("exception"):
-          acc.find(f"public function raised {st[10:]}", "forward.step", "crash-exception", **{k: v for k, v in (last or {}).items() if k != "case"})
-        elif st == "nonfinite":
-          acc.find("non-finite state without an overflow bit", "forward.step", "nonfinite", **{k: v for k, v in (last or {}).items() if k != "case"})
-      if last is not None and len(acc.samples) < 2:
-        acc.sample({"nworld": last.get("nworld"), "caps": last.get("caps"), "sleep": last.get("sleep"), "status": st})
-      last = None
-  if p.returncode != 0:
-    tail = (p.stderr or "")[-600:]
-    acc.find(f"debug-build worker died (exit {p.returncode}): {tail.strip()[-300:]}", "warp debug build", "abort", **{k: v for k, v in (last or {}).items() if k != "case"})
+  skip = []
+  for attempt in range(4):
+    p = subprocess.run([sys.executable, os.path.join(VERIF, "harness", "props", "c17_worker.py"), str(seed), str(ncases), ",".join(str(k) for k in skip)],
+                       capture_output=True, text=True, timeout=3000)
+    last = None
+    for line in p.stdout.split("\n"):
+      line = line.strip()
+      if not line.startswith("{"):
+        continue
+      try:
+        ev = json.loads(line)
+      except Exception:
+        continue
+      if "begin" in ev:
+        last = ev["begin"]
+      elif "end" in ev:
+        if attempt and ev["end"] != "invalid" and ev["end"] in acc.distinct:
+          last = None
+          continue        # already counted in an earlier attempt
+        acc.evals += 1
+        st = ev["status"]
+        acc.hit(st.split(":")[0])
+        if ev["end"] == "invalid":
+          if st != "rejected" and not attempt:
+            acc.find(f"invalid configuration {ev['kw']} was not rejected ({st})", "io.make_data", "invalid-accepted", kw=ev["kw"])
+        else:
+          acc.distinct.add(ev["end"])
+          if st.startswith("exception"):
+            acc.find(f"public function raised {st[10:]}", "forward.step", "crash-exception", **{k: v for k, v in (last or {}).items() if k != "case"})
+          elif st == "nonfinite":
+            acc.find("non-finite state without an overflow bit", "forward.step", "nonfinite", **{k: v for k, v in (last or {}).items() if k != "case"})
+        if last is not None and len(acc.samples) < 2:
+          acc.sample({"nworld": last.get("nworld"), "caps": last.get("caps"), "sleep": last.get("sleep"), "status": st})
+        last = None
+    if p.returncode == 0:
+      break
+    tail = (p.stderr or "")
+    site = _call_site(tail)
+    caps = (last or {}).get("caps") or {}
+    msg = [l for l in tail.split("\n") if "Assertion failed" in l or "At '" in l]
+    # recorded finding C17-nnz-overflow-rows: a row dropped by an njmax_nnz overflow (reported!) is still counted in nefc but its type/id/D/aref are
+    # never written; with a Data from make_data they are uninitialised and island.tree_edges indexes Model arrays with the garbage id
+    known = site == "island.tree_edges" and "njmax_nnz" in caps and bool((last or {}).get("sleep"))
+    acc.find(f"debug-build worker died (exit {p.returncode}) in {site or '?'}: {' '.join(msg)[-300:] or tail.strip()[-300:]}",
+             site if known else "warp debug build", "oob-after-njmax_nnz-overflow" if known else "abort", call_site=site, **{k: v for k, v in (last or {}).items() if k != "case"})
+    if last is None or "case" not in last:
+      break
+    skip.append(int(last["case"]))     # continue the sweep behind the aborting case
+    acc.hit("restarted-after-abort")
   return acc
 
 
